@@ -101,9 +101,9 @@ def facts_path(cfg='default', repo=None, force=False, quiet=True):
         if not os.path.exists(tmp_out):
             raise BuildError('the driver did not write facts (cargo skipped the wrapper?)\n' + r.stdout[-2000:])
         os.replace(tmp_out, out)
-        # keep the cache small: drop facts files older than the 12 newest
+        # keep the cache small: drop facts files older than the 48 newest
         olds = sorted(glob.glob(os.path.join(CACHE, 'facts-*.json')), key=os.path.getmtime)
-        for p in olds[:-12]:
+        for p in olds[:-48]:
             try:
                 os.remove(p)
             except OSError:
